@@ -432,15 +432,17 @@ def compare_one(ctx, spec, impl, model, indep_edges_ok=True):
             if i != m:
                 focus = {"query": key.split(" ", 1)} if mode == "uses" else {"root": key.split(" ", 1), "mode": mode}
                 ctx.disagree(dict(case, focus=focus), m, i, where=mode)
-    # captured internals of topologicalSort: graph, component partition, layers; and the verified partition
-    # checker on the model's Tarjan result (this part is testing)
+    # captured internals of topologicalSort: graph, component partition, layers.  Tarjan's correctness is proved
+    # for every graph (Props/C13.v tarjan_correct, tarjan_components); running the verified partition checker on the
+    # model's Tarjan result is kept as an extra comparison (extracted code against an independent executable
+    # statement of the partition), no claim rests on it
     for key, mc in model["captured"].items():
         ic = impl["captured"].get(key, {})
         if "err" in mc:
             ctx.disagree(dict(case, focus={"root": key.split(" ", 1)}), mc, ic, where="topo internals")
             continue
         if not mc["partition_ok"]:
-            ctx.disagree(dict(case, focus={"root": key.split(" ", 1)}), mc, None, where="partition_ok rejects the model's Tarjan result")
+            ctx.disagree(dict(case, focus={"root": key.split(" ", 1)}), mc, None, where="extra comparison: partition_ok rejects the model's Tarjan result")
         ctx.bump("partitions-validated")
         if any(len(c) > 1 for c in mc["comps"]):
             ctx.bump("partitions-validated-cyclic")
@@ -583,8 +585,10 @@ def setup_ctx(ctx):
         "resolution of the generated data (explicit version iff declared, bare name -> tag current)",
         "modelled, not verified: iteration order of python sets of Products (unobservable: components and layers are compared "
         "as sets), python list.sort stability, Product equality/hash with one flavor",
-        "the component partition of cyclic graphs is validated per tested graph by the Coq-verified checker partition_ok "
-        "(sound by theorem partition_ok_sound) - this is testing, full Tarjan correctness is proved for acyclic graphs only"]
+        "extra comparison, not a premise of any claim: the model's component partition of every tested graph is also run "
+        "through the Coq-verified checker partition_ok (partition_checker_sound); Tarjan's algorithm is proved correct on "
+        "every graph, cyclic or not (tarjan_correct, tarjan_components), and the topological pipeline is proved total "
+        "(topological_listing_total, uses_total)"]
     ctx.assumptions = [
         "one stack, one flavor; every declared product has a readable table; table lines are plain setupRequired/"
         "setupOptional(name [version]) (no -j, --external, unsetupRequired, version expressions, per-line tags)",
